@@ -57,7 +57,7 @@ def gen_daspects(r):
     return out
 
 def gen_config(r, clean=False, profile=None):
-    """clean=True keeps away from the input classes of the recorded defects"""
+    """clean=True keeps away from the boundary input classes (values > 127, bits 5..7, addrh > 0x3F, non-enum states)"""
     ids = Ids(); used_dcc = set(); used_uid = set()
     def dcc(train=False):
         while True:
@@ -373,7 +373,8 @@ def find_acc(cfg, point, name):
 def speed_fmt(steps): return {14: 0, 28: 2, 126: 3}[steps]
 
 def input_class(cfg, c):
-    """the input classes of the recorded defects (specific violation keys); None = no recorded defect applies"""
+    """the boundary input classes that used to be recorded defects (repaired in /repo, notes/C09-after-fix); counted for the
+    coverage report only - the oracle judges them like any other step"""
     k = c[0]
     if k in ("switch_point", "set_signal"):
         e = find_acc(cfg, k == "switch_point", c[1])
@@ -393,26 +394,6 @@ def input_class(cfg, c):
         if own and own[0] != c[2]: return "reverser.board-not-owner"
     return None
 
-def defect_shape(cls, cfg, c, exp, o, prev):
-    """a rejected step inside a recorded class is only attributed to that class if the deviation has the recorded form;
-    anything else inside the class is still reported as unexpected"""
-    same_state = strip_rest(o["state"]) == strip_rest(prev)
-    msgs_ok = not match_expected((o["ret"], exp[1], strip_rest(o["state"])), (o["ret"], o["msgs"], o["state"]))
-    if cls in ("accessory.number>127", "accessory.aspect>127", "track-output.state-not-enum"):
-        return o["ret"] == 0 and o["msgs"] == [] and same_state
-    if cls == "train-peripheral.bit5-7":
-        t = [t for t in cfg["trains"] if t["id"] == c[1]][0]
-        addr = prev["B"].get(c[-1], [0, None])[1]
-        return o["ret"] == 0 and o["msgs"] is not None and (o["msgs"] == [] or (len(o["msgs"]) == 1 and o["msgs"][0][0] == addr and o["msgs"][0][1] == MSG_CS_DRIVE
-                and o["msgs"][0][2][:3] == [t["addrl"], t["addrh"], speed_fmt(t["steps"])] and o["msgs"][0][2][4] == 0))
-    if cls == "train.dcc-addrh>0x3f":
-        return o["ret"] == exp[0] and msgs_ok          # only the tracked state may deviate
-    if cls == "reverser.board-not-owner":
-        addr = prev["B"].get(c[2], [0, None])[1]
-        cv = [m["cv"] for b in cfg["boards"] for m in b["revs"] if m["id"] == c[1]][0]
-        return o["ret"] == 0 and o["msgs"] == [[addr, MSG_VENDOR_GET, [len(cv)] + [ord(x) for x in cv]]] and o["state"]["R"].get(c[1]) == 2
-    return False
-
 def spec_step(cfg, prev, c):
     """expected (ret, msgs, state) of command c in tracked state prev (the implementation's own previous snapshot)"""
     st = copy.deepcopy(strip_rest(prev)); bad = (1, [], strip_rest(prev)); k = c[0]
@@ -431,7 +412,7 @@ def spec_step(cfg, prev, c):
         if addr is None: return bad
         if kind == "b":
             a = [v for n, v in m["aspects"] if n == c[2]]
-            if not a: return bad
+            if not a or m["num"] > 127 or a[0] > 127: return bad        # out-of-range value: MSG_ACCESSORY_SET carries 0..127
             return 0, [[addr, MSG_ACCESSORY_SET, [m["num"], a[0]]]], st
         a = [ps for n, ps in m["aspects"] if n == c[2]]
         if not a: return bad
@@ -470,7 +451,8 @@ def spec_step(cfg, prev, c):
         per = [b for n, b in t["pers"] if n == c[2]]
         if not per or c[3] > 1: return bad
         bit = per[0]
-        lo, hi, act = (0, 4, 2) if bit < 5 else (5, 7, -1) if bit < 8 else (8, 11, 4) if bit < 12 else (12, 15, 8) if bit < 16 else (16, 23, 16) if bit < 24 else (24, 31, 32)
+        if 5 <= bit <= 7: return bad                     # MSG_CS_DRIVE has no function at bits 5..7: out-of-range configuration value
+        lo, hi, act = (0, 4, 2) if bit < 5 else (8, 11, 4) if bit < 12 else (12, 15, 8) if bit < 16 else (16, 23, 16) if bit < 24 else (24, 31, 32)
         f = [0, 0, 0, 0]
         cur = dict((n, v) for n, v in prev["T"][t["id"]]["pers"])
         for n, b2 in t["pers"]:
@@ -606,7 +588,7 @@ def judge_case(ck, cfg, steps, res, tag, stats, corr):
             if cls is None: stats["valid_clean"] += 1
         if cls: stats["classes"][cls] = stats["classes"].get(cls, 0) + 1
         if why:
-            key = cls if cls and defect_shape(cls, cfg, s, exp, o, prev) else ("unexpected." + s[0])
+            key = "unexpected." + s[0]
             stats["viol"][key] = stats["viol"].get(key, 0) + 1
             if stats["viol"][key] == 1:      # the first hit of a class is the smallest (witness case first); later ones are only counted
                 ck.violation(key, dict(replay_base, steps=[list(x) for x in steps[:i + 1]], step=i, command=list(s), state_before=strip_rest(prev),
@@ -645,10 +627,10 @@ def run(ck):
     ck.oblige("every generated config satisfies the theorems' hypothesis wfb (evaluated by the extracted model)", corr["wf_bad"] == 0, "%d configs with wfb = false" % corr["wf_bad"])
     if corr["wf_bad"]:
         ck.broken.append({"kind": "correspondence", "name": "wfb-on-generated-configs", "detail": "%d generated configs accepted by the parser violate wfb" % corr["wf_bad"]})
-    ck.oblige("oracle (property text) accepts every implementation step outside the recorded input classes",
+    ck.oblige("oracle (property text) accepts every implementation step",
               not [k for k in stats["viol"] if k.startswith("unexpected.") or k.startswith("harness.")], json.dumps(stats["viol"]))
     ck.coverage.update({"evaluations": stats["evaluations"], "distinct_nontrivial": stats["valid"], "configs": len(cases), "distribution": stats["dist"],
-                        "valid_outside_recorded_classes": stats["valid_clean"], "recorded_class_hits": stats["classes"], "oracle_rejections": stats["viol"],
+                        "valid_outside_boundary_classes": stats["valid_clean"], "boundary_class_hits": stats["classes"], "oracle_rejections": stats["viol"],
                         "rule": "seeded configurations (1-4 boards with board/DCC points and signals, peripherals, reversers; 1-4 trains with function bits, calibration) rendered as YAML for the library and as #cfg lines for the model; per config every accessory x every aspect (+ undefined aspect, wrong kind, unknown id), speeds incl. the full -130..130 sweep (profile sweep), calibrated speeds -10..10, function bits x {0,1} (+ rare 2,3,128,255) in random order, booster/track-output/reverser commands, before connection, after connection, after node-lost/reconnect at another address; non-trivial = the property demands return 0 and at least the configured message(s)",
                         "samples": stats["samples"]})
     return vlib.finish_with_broken(ck, trusted=vlib.TRUSTED_COMMON + [
